@@ -795,7 +795,7 @@ theorem completion_wakes_parked_waker (e : Exec) (h : Inv e) (id w : Nat) (rest 
   obtain ⟨t', hg', ht⟩ := h.get_of_mem (id := id) (Or.inl (by simp [hh]))
   rw [hg] at hg'; cases hg'
   have hr := runTask_ready t hc (ht.inq_c rfl) o r hsc ho
-  have hmc : makeCold e id = { e with hot := rest, cold := e.cold ++ [id] } := by simp [makeCold, hh]
+  have hmc : makeCold e id = { e with hot := rest, cold := e.cold ++ [id], qlog := e.qlog ++ [.makeCold id] } := by simp [makeCold, hh]
   have hgm : (makeCold e id).get? id = some t := by rw [hmc]; exact hg
   have hwk := ht.wk
   rw [hs] at hwk
@@ -1002,12 +1002,17 @@ theorem intrusive_reachable_wf (ops : List QueueIntrusive.Op) (s : Spec) (hs : s
 theorems above speak) are the abstraction of a well-formed intrusive queue, whose key counter is the number of
 tasks spawned (`insert` returns the id the model gives the next task): obtained by replaying each `makeHot` /
 `makeCold` / `removeTask` / `spawn` / `clearAll` / `drainSync` of the model as the coded `make_hot` / `make_cold` /
-`remove` / `insert` / `clear` -/
+`remove` / `insert` / `clear` — concretely: REPLAYING the model's log of queue calls (`qlog`, what the driver does for
+every `qdump` line, whose output is compared with the walk of the REAL lists through hook `Executor::verif_queue_dump`)
+on the empty intrusive queue never panics and yields that structure, with the stored tails = last elements -/
 theorem queue_is_abstraction_of_intrusive (q : Nat) (ops : List Compio.Executor.Op) :
-    ∃ c : IQ, WF c ∧ abs c = ((run q ops).hot, (run q ops).cold) ∧ c.map.length = (run q ops).tasks.length ∧
-      Rep c (run q ops).hot (run q ops).cold := by
-  obtain ⟨c, r, l⟩ := qrep_run q ops
-  exact ⟨c, ⟨_, _, r⟩, abs_of_rep r, l, r⟩
+    ∃ c : IQ, runOps IQ.empty (run q ops).qlog = some c ∧
+      WF c ∧ abs c = ((run q ops).hot, (run q ops).cold) ∧ c.map.length = (run q ops).tasks.length ∧
+      Rep c (run q ops).hot (run q ops).cold ∧
+      c.hotTail = (run q ops).hot.getLast? ∧ c.coldTail = (run q ops).cold.getLast? := by
+  obtain ⟨c, hq, r, l⟩ := qrep_run q ops
+  have ri := rep_iff.mp r
+  exact ⟨c, hq, ⟨_, _, r⟩, abs_of_rep r, l, r, ri.2.2.2.1, ri.2.2.2.2.2.1⟩
 
 end intrusive
 
